@@ -488,7 +488,7 @@ def check_c03(pid, tier, seed):
             sessions.append({"id": sid, "steps": steps})
     # as in a real game: the memory is kept while the game moves on two plies at a time (the new root was an inner node of the
     # previous search), a few games of six searches each
-    wv(wvbin, ["play", "--seed", seed + 23, "--games", 8 if quick else 80, "--plies", 14, "--emit", "move", "--corpus", os.path.join(CORPUS, "positions.fen"), "--out-prefix", os.path.join(wd, "gl")])
+    wv(wvbin, ["play", "--seed", seed + 23, "--games", 100 if quick else 1200, "--plies", 14, "--emit", "move", "--corpus", os.path.join(CORPUS, "positions.fen"), "--out-prefix", os.path.join(wd, "gl")])
     game = []
     games = []
     for l in open(os.path.join(wd, "gl.move.ndjson")):
@@ -505,6 +505,14 @@ def check_c03(pid, tier, seed):
             d = rnd.choice([2, 3, 3])
             sessions.append({"id": sid, "steps": [{"fen": f, "depth": d, "seed": rnd.randrange(1 << 30), "workers": 1 + (k % 2), "tables": 8, "buckets": 1024, "reuse": k > 0, "tag": "game-like"}
                                                    for k, f in enumerate(roots)]})
+    # ... and along the line the engine itself reported (the opponent answers as expected): two plies further each time
+    for i in range(40 if quick else 600):
+        f = fens[(i * 17 + 3) % len(fens)]
+        d = rnd.choice([3, 3, 4])
+        sid += 1
+        first = {"fen": f, "depth": d, "seed": rnd.randrange(1 << 30), "workers": 1, "tables": 8, "buckets": 1024, "tag": "follow-own-line"}
+        sessions.append({"id": sid, "steps": [first] + [{"follow": 2, "depth": d, "seed": rnd.randrange(1 << 30), "workers": 1 + (k % 2), "reuse": True, "tables": 8, "buckets": 1024, "tag": "follow-own-line"}
+                                                        for k in range(3)]})
     traces = run_scripts(wvbin, wd, "c03", sessions)
     validate_search_traces(chk, traces, pid)
     # white box: the workers' own event streams against the algorithmic model (stored moves legal, keys functional)
@@ -784,6 +792,12 @@ def check_c06(pid, tier, seed):
     mfens = [l.strip() for l in open(os.path.join(CORPUS, "mates.fen")) if l.strip() and not l.startswith("#")]
     wbs = [{"id": 900000 + i, "steps": [{"fen": f, "depth": 4 if len([c for c in f.split()[0] if c.isalpha()]) <= 14 else 3, "seed": rnd.randrange(1 << 30), "workers": 1 + i % 2, "tables": 2, "buckets": 256, "tag": "whitebox"}]}
            for i, f in enumerate(mfens if not quick else mfens[::2] + mfens[-5:])]
+    # the look-alikes in which a check lands on the horizon: every capture search logged node by node (no sampling), so that
+    # SearchWB's soundness clause sees each being-mated score the capture search returns
+    for i, f in enumerate(mfens[-14:] if not quick else mfens[-14:][seed % 2::2]):
+        for d in (1, 2, 3):
+            wbs.append({"id": 950000 + 10 * i + d, "steps": [{"fen": f, "depth": d, "seed": rnd.randrange(1 << 30), "workers": 1, "tables": 2, "buckets": 256, "tag": "whitebox-horizon",
+                                                              "qs_every": 1, "qs_budget": 40000}]})
     whitebox(chk, wvbin, wd, pid, wbs)
     st, samples = trace_stats(traces)
     ver = json.load(open(os.path.join(WORK, "tb", "verified.json")))
